@@ -49,6 +49,10 @@ def runFw (cases : List CaseBlock) : IO Unit := do
       | some w =>
         IO.println s!"mon C05 FAIL {c.id} determinism: {String.intercalate " " w}"
         -- a copy of the framework (clone / clone_from) that panics where the original returns is a totality failure too
+        -- the crate's own impl of its time traits for std::time deviates from the specified clock semantics
+        -- (saturating difference, exact durations): the blocking budgets are computed from it
+        if w.contains "default-clock" then
+          IO.println s!"mon C03 FAIL {c.id} on the default clock (std::time::Instant) the framework returns other actions than for the same instants on the virtual clock: {String.intercalate " " w}"
         if w.contains "copy-panicked" then
           IO.println s!"mon C01 FAIL {c.id} a copy of the framework panicked where the original returned: {String.intercalate " " w}"
       | none => pure ()
